@@ -14,7 +14,8 @@ RULE = ('a 3-level tree whose names give every pattern kind matching and non-mat
         '/anchored, comment, blank, !negation of each} for git and docker, and over glob/regexp sections with syntax: switches '
         'for hg; x root spelling {., relative, absolute, absolute through a symlinked ancestor, absolute with .. components, sub-directory of the repository with the ignore file in an ancestor, two roots in two different repositories}; the repository path contains regex metacharacters x '
         '{option, configuration default, no... override, off} x bfs/dfs x two roots; non-trivial = the list ignores some but not '
-        'all entries')
+        'all entries'
+        '; docker lines with blanks, ./, //, /../ and a byte order mark, entry names with a backslash; hg expressions with ^ inside, syntax names re/rootglob/relglob, per-line prefixes, an unknown syntax name')
 ASSUMPTIONS = ['git verdicts come from `git check-ignore --no-index` run in the generated repository; the .git directory itself is '
                'outside the compared domain',
                'docker reference: patterns rooted at the context, * and ? do not cross /, ** crosses directories, a match on a '
